@@ -7,6 +7,7 @@ listed in every evidence file that depends on them.
 """
 from __future__ import annotations
 
+from pyvc.values import unmodelled as _unmodelled  # noqa: E402
 import z3
 
 from . import sym
@@ -73,7 +74,7 @@ class EventModel:
             return Builtin("Event.is_set", lambda: self.flag)
         if name == "wait":
             return Builtin("Event.wait", lambda: Awaitable("Event.wait", lambda it2: self._wait(it2)))
-        raise it.exc("AttributeError", name)
+        raise _unmodelled(self, name)
 
     def _set(self, it, v):
         self.flag = v
@@ -102,7 +103,7 @@ class LoopModel:
             return Builtin("loop.create_task", lambda coro, **k: create_task(it, coro))
         if name == "create_datagram_endpoint":
             return Builtin("loop.create_datagram_endpoint", lambda *a, **k: _datagram_endpoint(it, *a, **k))
-        raise it.exc("AttributeError", name)
+        raise _unmodelled(self, name)
 
     def __repr__(self):
         return "<loop>"
@@ -124,7 +125,7 @@ class TaskModel:
             return Builtin("Task.exception", lambda: None)
         if name == "done":
             return Builtin("Task.done", lambda: self.cancelled)
-        raise it.exc("AttributeError", name)
+        raise _unmodelled(self, name)
 
     def _cancel(self, it):
         self.cancelled = True
@@ -167,7 +168,7 @@ class DatagramTransportModel:
                 self.closed += 1
                 it.path.event("transport.close")
             return Builtin("transport.close", close)
-        raise it.exc("AttributeError", name)
+        raise _unmodelled(self, name)
 
     def __repr__(self):
         return "<datagram transport>"
@@ -207,7 +208,7 @@ class SocketModel:
             return Builtin("socket.bind", lambda addr: self.bound.append(addr))
         if name in ("setblocking", "close"):
             return Builtin("socket." + name, lambda *a: None)
-        raise it.exc("AttributeError", name)
+        raise _unmodelled(self, name)
 
     def __repr__(self):
         return "<socket>"
@@ -237,7 +238,7 @@ class TimeoutCM:
             return Builtin("Timeout.reschedule", lambda when: self._resched(it, when))
         if name == "when":
             return Builtin("Timeout.when", lambda: self.when)
-        raise it.exc("AttributeError", name)
+        raise _unmodelled(self, name)
 
     def _resched(self, it, when):
         self.when = when
